@@ -4,6 +4,7 @@ import (
 	"bufio"
 	"fmt"
 	"io"
+	"math"
 	"reflect"
 	"strconv"
 	"strings"
@@ -45,6 +46,34 @@ func defaultFormat(v interface{}, f fmt.State, c rune) {
 	buf = append(buf, string(c))
 	format := strings.Join(buf, "")
 	fmt.Fprintf(f, format, v)
+}
+
+// formatNonFinite writes an infinity or a NaN as C printf does for the e E f F g G conversions:
+// inf / nan (upper case for the upper-case verbs) with the sign flags, padded with blanks only.
+func formatNonFinite(v float64, f fmt.State, c rune) {
+	s := "inf"
+	if math.IsNaN(v) {
+		s = "nan"
+	}
+	if c == 'E' || c == 'F' || c == 'G' {
+		s = strings.ToUpper(s)
+	}
+	switch {
+	case math.IsInf(v, -1):
+		s = "-" + s
+	case f.Flag('+'):
+		s = "+" + s
+	case f.Flag(' '):
+		s = " " + s
+	}
+	format := "%"
+	if f.Flag('-') {
+		format += "-"
+	}
+	if w, ok := f.Width(); ok {
+		format += strconv.Itoa(w)
+	}
+	fmt.Fprintf(f, format+"s", s)
 }
 
 type flagScanner struct {
